@@ -309,7 +309,18 @@ fn run(c: &mut Case) {
     inp.spec.install();
     let cfg = RCfg { allow: 0, buffered: vec![], capacity: *c.rng.pick(&[None, None, Some(16), Some(64)]), max_size: MaxSz::Set(Some(1 << 20)), eof_end: true };
     let src = if c.tier == Tier::Thorough || c.rng.chance(1, 2) { random_source(&mut c.rng, &inp.bytes) } else { crate::io::ScriptedRead::new(inp.bytes.clone()) };
-    let (p, _s, _) = parse_scripted(src, &cfg);
+    // a fifth of the parses run the way a live-stream consumer would: end-of-stream closing off, the source pausing
+    // (Ok(0)) at some element boundaries, closing switched on once the source is exhausted for good
+    let live = !inp.lay.is_empty() && c.rng.chance(1, 5);
+    let (p, _s, _) = if live {
+        let mut stops: Vec<usize> = inp.lay.iter().flat_map(|l| [l.off, if l.is_master { l.data_start } else { l.end }]).filter(|x| *x > 0 && *x < inp.bytes.len() && c.rng.chance(1, 3)).collect();
+        stops.sort();
+        stops.dedup();
+        c.count("live_stream_parses");
+        crate::rd::parse_scripted_fin(src.with_stops(stops), &RCfg { eof_end: false, ..cfg.clone() }, true)
+    } else {
+        parse_scripted(src, &cfg)
+    };
     c.eval();
     if let Ev::Caught(_) = p.end {
         c.count("vacuous_caught");
